@@ -12,7 +12,8 @@ open CentrifugeVerif DriverLib Lifecycle
 
 def label? (w : String) : Option Label :=
   match w.splitOn ":" with
-  | ["connectCmdOk"] => some .connectCmdOk | ["triggerAcquire"] => some .triggerAcquire
+  | ["connectCmdOk"] => some .connectCmdOk | ["connectCmdRefused"] => some .connectCmdRefused
+  | ["triggerAcquire"] => some .triggerAcquire
   | ["triggerEnd"] => some .triggerEnd | ["subscribe"] => some .subscribe | ["closeTry"] => some .closeTry
   | ["wAcquirePresence"] => some .wAcquirePresence | ["wRemove"] => some .wRemove | ["wCb"] => some .wCb
   | ["wDisc"] => some .wDisc | ["wDiscEnd"] => some .wDiscEnd
